@@ -76,7 +76,7 @@ Definition spec_msgs (p : prescription) (ch dev : Z) (args : list Z) (txt : list
   | PText ty, [] => Some [MMeta ty (utf8 (fit_below 128 txt))]
   | PPort, [v] => if (0 <=? v) && (v <=? 255) then Some [MMeta META_PORT [v]] else None
   | PBend, [v] => if d14s v then Some [MBend ch (bend_lsb (v + BEND_CENTRE)) (bend_msb (v + BEND_CENTRE))] else None
-  | PBendSmall, [v] => if d7 v then Some [MBend ch (bend_lsb (128 * v)) (bend_msb (128 * v))] else None
+  | PBendSmall, [v] => if d7 v then Some [MBend ch (bend_lsb (v * 128)) (bend_msb (v * 128))] else None
   | PRpn (m, l), [v] => if d7 v then Some [MCC ch CC_RPN_MSB m; MCC ch CC_RPN_LSB l; MCC ch CC_DATA_ENTRY v] else None
   | PNrpn (m, l), [v] => if d7 v then Some [MCC ch CC_NRPN_MSB m; MCC ch CC_NRPN_LSB l; MCC ch CC_DATA_ENTRY v] else None
   | PRpnDirect, [m; l; v] =>
@@ -88,7 +88,7 @@ Definition spec_msgs (p : prescription) (ch dev : Z) (args : list Z) (txt : list
   | PMasterBalance, [v] => if d14s v then Some [MSysEx (MASTER_BALANCE (v + BEND_CENTRE))] else None
   | PGsEffect a, [v] => if d7 v then Some [MSysEx (GS_DT1 dev [64; 1; a; v])] else None
   | PGsEffectDirect, [a; v] => if d7 a && d7 v then Some [MSysEx (GS_DT1 dev [64; 1; a; v])] else None
-  | PGsRhythm, [v] => if (0 <=? v) && (v <=? 2) then Some [MSysEx (GS_DT1 dev [64; 16 + gs_block ch; 21; v])] else None
+  | PGsRhythm, [v] => if (0 <=? v) && (v <=? 2) then Some [MSysEx (GS_DT1 dev [64; gs_block ch + 16; 21; v])] else None
   | PGsScaleTuning, vs =>
       if Nat.eqb (length vs) 12 && forallb d7 vs
       then Some (map (fun x => MSysEx (GS_DT1 dev ([64; 16 + x; 64] ++ vs))) [1; 2; 3; 4; 5; 6; 7; 8; 9; 10; 11; 12; 13; 14; 15])
